@@ -40,6 +40,14 @@ Definition node_copy_registers : bool :=
     operations (constructor's accepting store, __setitem__'s lowest-unused-index store, index-preserving duplicate). *)
 Definition fixup_writes_modelled : bool := forallb (λ '(_, _, _, ok), ok) fixup_write_sites.
 
+(** Round 4: the steps of VMF.parse that touch entity / brush / face IDs, read off its body in source order
+    (Gen/IdSites_gen.v), as a program of SM/IdNest.v. *)
+Definition parse_program : list pstep :=
+  List.map (λ g, match g with GPPlaceholder => PPlaceholder | GPWorld => PWorld | GPDropPlaceholder => PDropPlaceholder
+                            | GPEntities => PEntities | GPReleasePlaceholder => PReleasePlaceholder end) parse_steps.
+(** VMF.parse itself releases no ID (the placeholder's ID is given back by its destructor, once). *)
+Definition parse_releases_nothing : bool := prog_ok parse_program.
+
 (** The allocator scan always terminates (pigeonhole on the used set). *)
 Theorem c08_get_id_total : ∀ d s, is_Some (get_id d s).
 Proof. exact get_id_total. Qed.
@@ -195,22 +203,59 @@ Proof. exact fx_hist_refuted_without_deferral. Qed.
 Theorem c08_nested_world_unique : ∀ es m,
   release_on_remove KEnt = false → release_on_remove KSolid = false → release_on_remove KFace = false →
   copy_to_dest KEnt = true → copy_to_dest KSolid = true → copy_to_dest KFace = true →
+  parse_releases_nothing = true →
   let w := trun (release_on_remove KEnt) (release_on_remove KSolid) (release_on_remove KFace)
-                (copy_to_dest KEnt) (copy_to_dest KSolid) (copy_to_dest KFace) es in
+                (copy_to_dest KEnt) (copy_to_dest KSolid) (copy_to_dest KFace) parse_program es in
   (NoDup (live_ids_in m (tE w)) ∧ ∀ i, i ∈ live_ids_in m (tE w) → 0 < i) ∧
   (NoDup (live_ids_in m (tS w)) ∧ ∀ i, i ∈ live_ids_in m (tS w) → 0 < i) ∧
   (NoDup (live_ids_in m (tF w)) ∧ ∀ i, i ∈ live_ids_in m (tF w) → 0 < i).
-Proof. intros es m -> -> -> -> -> ->. exact (trun_unique es m). Qed.
+Proof. intros es m -> -> -> -> -> -> Hp. exact (trun_unique parse_program es m Hp). Qed.
+(** Round 4.  The same for EVERY parse program without an explicit release step, whatever the order of its steps and the
+    time at which the placeholder worldspawn dies: histories may contain VMF.parse of any document (world block, world
+    brushes and entity blocks with arbitrary, colliding, missing IDs; hidden objects) into any map, followed and preceded by
+    any other events -- parse-then-allocate included. *)
+Theorem c08_parse_any_program_unique : ∀ prog es m, prog_ok prog = true →
+  let w := trun false false false true true true prog es in
+  (NoDup (live_ids_in m (tE w)) ∧ ∀ i, i ∈ live_ids_in m (tE w) → 0 < i) ∧
+  (NoDup (live_ids_in m (tS w)) ∧ ∀ i, i ∈ live_ids_in m (tS w) → 0 < i) ∧
+  (NoDup (live_ids_in m (tF w)) ∧ ∀ i, i ∈ live_ids_in m (tF w) → 0 < i).
+Proof. exact trun_unique. Qed.
+(** The premise is necessary: when parse hands the placeholder's ID back itself before the world block is parsed, the
+    destructor of the placeholder releases it a second time while the worldspawn holds it.  A Hammer-saved document (world
+    id 1, an entity with id 2, an entity without id): entity IDs 1, 2, 1; an empty map with world id 1 followed by one
+    create_ent: 1, 1. *)
+Theorem c08_parse_early_release_refuted :
+  let w := trun false false false true true true prog_early_release [TParse 0 hammer_doc] in
+  live_ids_in 0 (tE w) = [1; 2; 1] ∧
+  live_ids_in 0 (tE (trun false false false true true true prog_early_release
+     [TParse 0 {| pd_world := 1; pd_brushes := []; pd_ents := [] |}; TCreateEnt 0 (-1) []])) = [1; 1].
+Proof. exact parse_early_release_refuted. Qed.
+(** With the pinned tree's program, VMF.parse is: the constructor's worldspawn; the bundles of the world brushes in file
+    order; the worldspawn entity; the destructor of the placeholder (the object with the index the constructor's worldspawn
+    got); the bundles of the entity blocks in file order. *)
+Theorem c08_parse_is_events : ∀ r1 r2 r3 c1 c2 c3 w m d,
+  tparse r1 r2 r3 c1 c2 c3 prog_std w m d =
+  let w1 := tstep r1 r2 r3 c1 c2 c3 prog_std w (TCreateSpawn m) in
+  let w2 := fold_left (λ w (b : bool * (Z * list Z)), tcreate_h r1 r2 r3 c1 c2 c3 w m None [b.2] true b.1) (pd_brushes d) w1 in
+  let w3 := tcreate r1 r2 r3 c1 c2 c3 w2 m (Some (pd_world d)) [] false in
+  let w4 := tstep r1 r2 r3 c1 c2 c3 prog_std w3 (TDestroy (length (ttops w))) in
+  fold_left (λ w (e : bool * (Z * list (Z * list Z))), tcreate_h r1 r2 r3 c1 c2 c3 w m (Some e.2.1) e.2.2 true e.1) (pd_ents d) w4.
+Proof. exact tparse_is_events. Qed.
+(** The hypotheses are satisfiable and the statement is not vacuous: the Hammer-saved document, then one create_ent. *)
+Example c08_parse_hammer_doc :
+  let w := trun false false false true true true prog_std [TParse 0 hammer_doc; TCreateEnt 0 (-1) []] in
+  live_ids_in 0 (tE w) = [2; 1; 3; 4] ∧ live_ids_in 0 (tS w) = [1] ∧ live_ids_in 0 (tF w) = [1; 2].
+Proof. vm_compute. done. Qed.
 (** When Entity.copy() does not pass the map down to its brushes: brushes 1, 2, 2 and faces 1, 2, 2 in one map. *)
 Theorem c08_nested_copy_from_source_refuted :
-  let w := trun false false false true false false nested_copy_history in
+  let w := trun false false false true false false prog_std nested_copy_history in
   live_ids_in 1 (tE w) = [1] ∧ live_ids_in 1 (tS w) = [1; 2; 2] ∧ live_ids_in 1 (tF w) = [1; 2; 2].
 Proof. exact nested_copy_from_source_refuted. Qed.
 (** collapse_one (visgroups kept) as one event is the fold of the copy() bundles of the instance map's visible listed
     brushes, then its listed entities; without visgroups the copies are in addition made visible. *)
-Theorem c08_nested_collapse_is_copies : ∀ r1 r2 r3 c1 c2 c3 w s m, s ≠ m →
-  tstep r1 r2 r3 c1 c2 c3 w (TCollapse s m true) =
-  fold_left (tstep r1 r2 r3 c1 c2 c3) ((λ t, TCopy t m (-1) true) <$> tcollapse_sources w s true) w.
+Theorem c08_nested_collapse_is_copies : ∀ r1 r2 r3 c1 c2 c3 pg w s m, s ≠ m →
+  tstep r1 r2 r3 c1 c2 c3 pg w (TCollapse s m true) =
+  fold_left (tstep r1 r2 r3 c1 c2 c3 pg) ((λ t, TCopy t m (-1) true) <$> tcollapse_sources w s true) w.
 Proof. exact tcollapse_is_copies. Qed.
 
 (** Round 3.  Nav-node IDs over several maps (SM/IdNodeMaps.v): after every history of construction / parse with any
@@ -244,11 +289,12 @@ Theorem c08_one_map_all_kinds : ∀ hn hg hv hm fl fo m,
   copy_to_dest KGroup = true → copy_to_dest KVis = true →
   node_release_on_remove = false → node_copy_registers = true →
   fixup_init_requires_positive = true → fixup_init_defers_reinsertion = true →
+  parse_releases_nothing = true →
   let wn := trun (release_on_remove KEnt) (release_on_remove KSolid) (release_on_remove KFace)
-                 (copy_to_dest KEnt) (copy_to_dest KSolid) (copy_to_dest KFace) hn in
+                 (copy_to_dest KEnt) (copy_to_dest KSolid) (copy_to_dest KFace) parse_program hn in
   uniq_pos (live_ids_in m (tE wn)) ∧ uniq_pos (live_ids_in m (tS wn)) ∧ uniq_pos (live_ids_in m (tF wn)) ∧
   uniq_pos (live_ids_in m (wrun (release_on_remove KGroup) (copy_to_dest KGroup) hg)) ∧
   uniq_pos (live_ids_in m (wrun (release_on_remove KVis) (copy_to_dest KVis) hv)) ∧
   uniq_pos (nids (nents (mmap (mrun node_realloc_on_add node_release_on_remove node_release_in_del node_copy_registers hm) m))) ∧
   FxInv (fx_hist fixup_init_requires_positive fixup_init_defers_reinsertion fl fo).
-Proof. intros hn hg hv hm fl fo m -> -> -> -> -> -> -> -> -> -> -> -> -> ->. exact (all_kinds_unique hn hg hv hm fl fo _ _ m). Qed.
+Proof. intros hn hg hv hm fl fo m -> -> -> -> -> -> -> -> -> -> -> -> -> -> Hp. exact (all_kinds_unique hn hg hv hm fl fo _ _ m parse_program Hp). Qed.
